@@ -1076,3 +1076,367 @@ Module RespondExamples.
               In (RR_A (bs "host.com") 16909060) (rp_answer p).
   Proof. eexists. split; [vm_compute; reflexivity|]. cbn. auto. Qed.
 End RespondExamples.
+
+(** * Letter case (round 2)
+
+    [normalize] lower-cases the domain before anything else, for every kind
+    of entry, the "A"/"AAAA" exceptions included; CheckHost lower-cases the
+    queried name.  So neither the spelling of an entry's domain nor that of
+    the queried name matters.  The ANSWER is not lower-cased; the last part
+    of this section shows what follows for "name -> name" entries. *)
+
+Lemma lower_byte_idem b : lower_byte (lower_byte b) = lower_byte b.
+Proof.
+  unfold lower_byte. destruct ((65 <=? b) && (b <=? 90)) eqn:E; [|rewrite E; reflexivity].
+  apply andb_true_iff in E as [E1 E2]. apply N.leb_le in E1, E2.
+  replace ((65 <=? b + 32) && (b + 32 <=? 90)) with false; auto.
+  symmetry. apply andb_false_iff. right. apply N.leb_gt. lia.
+Qed.
+
+Lemma to_lower_idem s : to_lower (to_lower s) = to_lower s.
+Proof. unfold to_lower. rewrite map_map. apply map_ext, lower_byte_idem. Qed.
+
+(** Two spellings of one name. *)
+Definition same_name (a b : bytes) : Prop := to_lower a = to_lower b.
+
+Lemma same_name_nil a b : same_name a b -> is_nil a = is_nil b.
+Proof. unfold same_name, to_lower. destruct a, b; cbn; congruence. Qed.
+
+(** normalize: the domain is lower-cased whatever the answer is. *)
+Theorem normalize_dom r : e_dom (normalize r) = to_lower (w_dom r).
+Proof.
+  unfold normalize. destruct (eqb_bytes (w_ans r) ans_AAAA); [reflexivity|].
+  destruct (eqb_bytes (w_ans r) ans_A); [reflexivity|]. destruct (w_parse r); reflexivity.
+Qed.
+
+Theorem normalize_ans r : e_ans (normalize r) = w_ans r.
+Proof.
+  unfold normalize. destruct (eqb_bytes (w_ans r) ans_AAAA); [reflexivity|].
+  destruct (eqb_bytes (w_ans r) ans_A); [reflexivity|]. destruct (w_parse r); reflexivity.
+Qed.
+
+(** Entries that differ only in the letter case of the domain normalise to
+    the same entry. *)
+Theorem normalize_case_insensitive r r' :
+  same_name (w_dom r) (w_dom r') -> w_ans r = w_ans r' -> w_parse r = w_parse r' ->
+  normalize r = normalize r'.
+Proof. unfold same_name, normalize. intros -> -> ->. reflexivity. Qed.
+
+Definition same_raw (r r' : raw) : Prop :=
+  same_name (w_dom r) (w_dom r') /\ w_ans r = w_ans r' /\ w_parse r = w_parse r'.
+
+Theorem normalize_table_case_insensitive raws raws' :
+  Forall2 same_raw raws raws' -> map normalize raws = map normalize raws'.
+Proof.
+  induction 1 as [|r r' l l' (H1 & H2 & H3) _ IH]; cbn; [reflexivity|].
+  rewrite IH, (normalize_case_insensitive r r'); auto.
+Qed.
+
+Theorem normalize_type_exception r qt :
+  (w_ans r = ans_A /\ qt = qA) \/ (w_ans r = ans_AAAA /\ qt = qAAAA) ->
+  e_dom (normalize r) = to_lower (w_dom r) /\ type_exception (normalize r) qt.
+Proof.
+  intros [[A ->]|[A ->]]; unfold normalize, type_exception; rewrite A; cbn; auto.
+Qed.
+
+Section CaseInsensitive.
+  Variable sort : list entry -> list entry.
+  Hypothesis sort_perm : forall l, Permutation (sort l) l.
+  Hypothesis sort_sorted : forall l, sorted_by_compare (sort l).
+
+  (** The spelling of the queried name does not matter. *)
+  Theorem check_host_case_insensitive en tbl host host' qt :
+    same_name host host' ->
+    check_host sort en tbl host qt = check_host sort en tbl host' qt.
+  Proof.
+    intros S. unfold check_host. rewrite (same_name_nil _ _ S). unfold same_name in S.
+    rewrite S. reflexivity.
+  Qed.
+
+  (** "Name -> A" / "Name -> AAAA" in any spelling passes queries of that
+      type for the name in any spelling on. *)
+  Theorem type_exception_any_case en raws host qt x :
+    In x raws -> same_name (w_dom x) host ->
+    (w_ans x = ans_A /\ qt = qA) \/ (w_ans x = ans_AAAA /\ qt = qAAAA) ->
+    is_wildcard (to_lower host) = false ->
+    (forall e, In e (map normalize raws) -> matches_host e (to_lower host) = true ->
+               is_cname e = false) ->
+    check_host sort en (map normalize raws) host qt = Some empty_result.
+  Proof.
+    intros X S A W NoC. destruct (normalize_type_exception x qt A) as [D T].
+    eapply check_host_type_exception with (x := normalize x); eauto.
+    - apply in_map; auto.
+    - rewrite D. exact S.
+  Qed.
+
+  (** "Name -> name": the domain in any spelling, the answer in lower case. *)
+  Theorem self_exception_any_case_domain en raws host qt x :
+    In x raws -> same_name (w_dom x) host -> w_ans x = to_lower host ->
+    is_cname (normalize x) = true ->
+    (forall e, In e (map normalize raws) -> e_dom e = to_lower host -> is_cname e = true ->
+               e_ans e = to_lower host) ->
+    check_host sort en (map normalize raws) host qt = Some empty_result.
+  Proof.
+    intros X S A C All. apply check_host_self_exception; auto.
+    exists (normalize x). split; [apply in_map; auto|]. split; auto.
+    rewrite normalize_dom. exact S.
+  Qed.
+End CaseInsensitive.
+
+Module CaseExamples.
+  Import DocExamples.
+  Local Open Scope string_scope.
+  Definition raw_of (d a : string) (p : option ip) := {| w_dom := bs d; w_ans := bs a; w_parse := p |}.
+
+  (** Premises of [type_exception_any_case] are satisfiable: *)
+  Definition tA := [raw_of "*.example.com" "1.2.3.4" (v4 16909060); raw_of "NAS.Example.com" "A" None].
+  Example type_exception_premises :
+    In (raw_of "NAS.Example.com" "A" None) tA /\
+    same_name (bs "NAS.Example.com") (bs "nas.EXAMPLE.com") /\
+    is_wildcard (to_lower (bs "nas.EXAMPLE.com")) = false /\
+    forallb (fun e => negb (matches_host e (to_lower (bs "nas.EXAMPLE.com"))) || negb (is_cname e))
+            (map normalize tA) = true.
+  Proof. split; [cbn; auto|]. split; vm_compute; auto. Qed.
+
+  Example type_exception_mixed_case :
+    check_host isort true (map normalize tA) (bs "nas.EXAMPLE.com") qA = Some empty_result /\
+    check_host isort true (map normalize tA) (bs "other.example.com") qA =
+      answer "" [ip1234].
+  Proof. split; vm_compute; reflexivity. Qed.
+
+  (** Mixed-case wildcard pattern with an exception: *)
+  Example wildcard_exception_mixed_case :
+    check_host isort true
+      (map normalize [raw_of "*.Example.COM" "A" None; raw_of "*.com" "1.2.3.4" (v4 16909060)])
+      (bs "nas.example.com") qA = Some empty_result.
+  Proof. vm_compute. reflexivity. Qed.
+
+  (** "Name -> name" with the domain in capitals and the answer in lower case
+      is an exception ... *)
+  Definition tS1 := [raw_of "*.host.test" "1.2.3.4" (v4 16909060); raw_of "Pass.Host.test" "pass.host.test" None].
+  Example self_exception_domain_case :
+    check_host isort true (map normalize tS1) (bs "pass.host.test") qA = Some empty_result.
+  Proof. vm_compute. reflexivity. Qed.
+
+  (** ... but not when the answer carries capitals, even when both sides are
+      typed identically: the answer is compared bytewise with the lower-cased
+      name and pattern. *)
+  Definition tS2 := [raw_of "*.host.test" "1.2.3.4" (v4 16909060); raw_of "Pass.Host.test" "Pass.Host.test" None].
+  Definition tS3 := [raw_of "*.host.test" "1.2.3.4" (v4 16909060); raw_of "pass.host.test" "Pass.host.test" None].
+  Example self_exception_answer_case_2 :
+    check_host isort true (map normalize tS2) (bs "pass.host.test") qA = answer "Pass.Host.test" [].
+  Proof. vm_compute. reflexivity. Qed.
+  Example self_exception_answer_case_3 :
+    check_host isort true (map normalize tS3) (bs "pass.host.test") qA = answer "Pass.host.test" [ip1234].
+  Proof. vm_compute. reflexivity. Qed.
+End CaseExamples.
+
+(** The statement one would like: an entry whose answer is its own domain up
+    to letter case passes the name on. *)
+Definition self_exception_any_case_statement : Prop :=
+  forall sort, (forall l, Permutation (sort l) l) -> (forall l, sorted_by_compare (sort l)) ->
+  forall en raws host qt x,
+    In x raws -> same_name (w_dom x) host -> same_name (w_ans x) host ->
+    is_cname (normalize x) = true ->
+    (forall e, In e (map normalize raws) -> e_dom e = to_lower host -> is_cname e = true ->
+               same_name (e_ans e) host) ->
+    check_host sort en (map normalize raws) host qt = Some empty_result.
+
+(** The model of the code as it is refutes it: the entry typed
+    "Pass.Host.test -> Pass.Host.test" under "*.host.test -> 1.2.3.4". *)
+Theorem self_exception_any_case_refuted : ~ self_exception_any_case_statement.
+Proof.
+  intros H.
+  specialize (H isort isort_perm isort_sorted true CaseExamples.tS2 (bs "pass.host.test") qA
+                (CaseExamples.raw_of "Pass.Host.test" "Pass.Host.test" None)).
+  assert (E : check_host isort true (map normalize CaseExamples.tS2) (bs "pass.host.test") qA
+              = Some empty_result).
+  { apply H.
+    - cbn; auto.
+    - vm_compute; reflexivity.
+    - vm_compute; reflexivity.
+    - vm_compute; reflexivity.
+    - intros e He _ C. cbn in He. destruct He as [<-|[<-|[]]]; [vm_compute in C; discriminate|].
+      vm_compute; reflexivity. }
+  rewrite CaseExamples.self_exception_answer_case_2 in E. discriminate.
+Qed.
+
+(** * The response side for every upstream reply, negative ones included *)
+
+Section RespondNegative.
+  Variable sort : list entry -> list entry.
+  Hypothesis sort_perm : forall l, Permutation (sort l) l.
+
+  (** Every delivered message carries the original question, whatever the
+      upstream replied (any RCODE, any answer section). *)
+  Theorem respond_question upstream en tbl qname qt p :
+    respond sort upstream en tbl qname qt = Some p -> rp_qname p = qname.
+  Proof.
+    unfold respond. destruct (check_host sort en tbl qname qt) as [r|]; [|discriminate].
+    destruct (r_reason r); [destruct (upstream qname qt); intros [= <-]; reflexivity|].
+    destruct (_ && _); [destruct (upstream (r_canon r) qt)|]; intros [= <-]; reflexivity.
+  Qed.
+
+  (** The RCODE is the upstream's for the one question put to it, and 0 for
+      a local answer: the upstream's reply object is reused. *)
+  Theorem respond_rcode upstream en tbl qname qt p :
+    respond sort upstream en tbl qname qt = Some p ->
+    match rp_upstream p with
+    | [] => rp_rcode p = 0
+    | (n, t) :: rest => rest = [] /\ t = qt /\ rp_rcode p = fst (upstream n t)
+    end.
+  Proof.
+    unfold respond. destruct (check_host sort en tbl qname qt) as [r|]; [|discriminate].
+    destruct (r_reason r).
+    - destruct (upstream qname qt) eqn:U. intros [= <-]. cbn. rewrite U. auto.
+    - destruct (_ && _).
+      + destruct (upstream (r_canon r) qt) eqn:U. intros [= <-]. cbn. rewrite U. auto.
+      + intros [= <-]. reflexivity.
+  Qed.
+
+  (** A CNAME without table addresses, the upstream's reply spelled out:
+      for EVERY reply [(rc, ans)] (NXDOMAIN, SERVFAIL, NOERROR with an empty
+      answer section, ...) the client receives the original question, the
+      upstream's RCODE, and the CNAME in front of the upstream's records. *)
+  Theorem respond_cname_via_upstream_any_reply upstream en tbl qname qt r rc ans :
+    check_host sort en tbl qname qt = Some r ->
+    r_reason r = Rewritten -> r_canon r <> [] -> r_ips r = [] ->
+    upstream (r_canon r) qt = (rc, ans) ->
+    respond sort upstream en tbl qname qt =
+      Some {| rp_qname := qname; rp_rcode := rc;
+              rp_answer := RR_CNAME qname (r_canon r) :: ans;
+              rp_upstream := [(r_canon r, qt)] |}.
+  Proof.
+    intros C R Cn I U. rewrite (respond_cname_via_upstream sort upstream en tbl qname qt r C R Cn I).
+    rewrite U. reflexivity.
+  Qed.
+
+  (** [respond_e] with an upstream that never fails is [respond]. *)
+  Theorem respond_e_no_error upstream en tbl qname qt :
+    respond_e sort (fun n t => Some (upstream n t)) en tbl qname qt =
+    option_map (fun p => (false, p)) (respond sort upstream en tbl qname qt).
+  Proof.
+    unfold respond_e, respond, forward. destruct (check_host sort en tbl qname qt) as [r|]; [|reflexivity].
+    destruct (r_reason r); [destruct (upstream qname qt); reflexivity|].
+    destruct (_ && _); [destruct (upstream (r_canon r) qt); reflexivity|reflexivity].
+  Qed.
+
+  Theorem respond_e_terminates upstream en tbl qname qt :
+    respond_e sort upstream en tbl qname qt <> None.
+  Proof.
+    unfold respond_e. destruct (check_host sort en tbl qname qt) as [r|] eqn:C.
+    - destruct (r_reason r); [discriminate|]. destruct (_ && _); discriminate.
+    - exfalso. revert C. apply check_host_terminates; auto.
+  Qed.
+
+  (** With a failing upstream: whenever the handler did not fail, the
+      question is the original one; and the handler fails only when the one
+      exchange it tried failed. *)
+  Theorem respond_e_question upstream en tbl qname qt p :
+    respond_e sort upstream en tbl qname qt = Some (false, p) -> rp_qname p = qname.
+  Proof.
+    unfold respond_e, forward. destruct (check_host sort en tbl qname qt) as [r|]; [|discriminate].
+    destruct (r_reason r).
+    - destruct (upstream qname qt) as [[rc ans]|]; intros [= <-]; reflexivity.
+    - destruct (_ && _); [destruct (upstream (r_canon r) qt) as [[rc ans]|]|]; intros [= <-]; reflexivity.
+  Qed.
+
+  Theorem respond_e_failed_only_by_upstream upstream en tbl qname qt p :
+    respond_e sort upstream en tbl qname qt = Some (true, p) ->
+    exists n, rp_upstream p = [(n, qt)] /\ upstream n qt = None /\
+              rp_qname p = n /\ rp_rcode p = rcode_servfail /\ rp_answer p = [].
+  Proof.
+    unfold respond_e, forward. destruct (check_host sort en tbl qname qt) as [r|]; [|discriminate].
+    destruct (r_reason r).
+    - destruct (upstream qname qt) as [[rc ans]|] eqn:U; [discriminate|]. intros [= <-].
+      exists qname. cbn. auto.
+    - destruct (_ && _); [|discriminate].
+      destruct (upstream (r_canon r) qt) as [[rc ans]|] eqn:U; [discriminate|]. intros [= <-].
+      exists (r_canon r). cbn. auto.
+  Qed.
+End RespondNegative.
+
+(** The statement one would like for a failing exchange too: *)
+Definition question_restored_on_upstream_error_statement : Prop :=
+  forall sort, (forall l, Permutation (sort l) l) ->
+  forall upstream en tbl qname qt f p,
+    respond_e sort upstream en tbl qname qt = Some (f, p) -> rp_qname p = qname.
+
+Module NegativeExamples.
+  Import DocExamples.
+  Local Open Scope string_scope.
+  (* the canonical name does not exist / the upstream is broken / has no record *)
+  Definition up (name : bytes) (qt : N) : N * list rr :=
+    if eqb_bytes name (bs "gone.example") then (3, [])
+    else if eqb_bytes name (bs "broken.example") then (2, [])
+    else (0, []).
+  Definition tn := [ent "a.host.com" "gone.example" None; ent "b.host.com" "broken.example" None;
+                    ent "c.host.com" "empty.example" None].
+
+  Example premises :
+    exists r, check_host isort true tn (bs "a.host.com") qA = Some r /\
+              r_reason r = Rewritten /\ r_canon r <> [] /\ r_ips r = [] /\
+              up (r_canon r) qA = (3, []).
+  Proof. eexists. split; [vm_compute; reflexivity|]. vm_compute. repeat split. discriminate. Qed.
+
+  Example nxdomain :
+    respond isort up true tn (bs "a.host.com") qA =
+      Some {| rp_qname := bs "a.host.com"; rp_rcode := 3;
+              rp_answer := [RR_CNAME (bs "a.host.com") (bs "gone.example")];
+              rp_upstream := [(bs "gone.example", qA)] |}.
+  Proof. vm_compute. reflexivity. Qed.
+  Example servfail :
+    respond isort up true tn (bs "b.host.com") qAAAA =
+      Some {| rp_qname := bs "b.host.com"; rp_rcode := 2;
+              rp_answer := [RR_CNAME (bs "b.host.com") (bs "broken.example")];
+              rp_upstream := [(bs "broken.example", qAAAA)] |}.
+  Proof. vm_compute. reflexivity. Qed.
+  Example nodata :
+    respond isort up true tn (bs "c.host.com") qA =
+      Some {| rp_qname := bs "c.host.com"; rp_rcode := 0;
+              rp_answer := [RR_CNAME (bs "c.host.com") (bs "empty.example")];
+              rp_upstream := [(bs "empty.example", qA)] |}.
+  Proof. vm_compute. reflexivity. Qed.
+
+  (** A failing exchange for the canonical name: the SERVFAIL that is sent
+      carries the canonical name as its question. *)
+  Definition up_down (name : bytes) (qt : N) : option (N * list rr) :=
+    if eqb_bytes name (bs "gone.example") then None else Some (0, []).
+  Example upstream_error :
+    respond_e isort up_down true tn (bs "a.host.com") qA =
+      Some (true, {| rp_qname := bs "gone.example"; rp_rcode := 2; rp_answer := [];
+                     rp_upstream := [(bs "gone.example", qA)] |}).
+  Proof. vm_compute. reflexivity. Qed.
+End NegativeExamples.
+
+Theorem question_restored_on_upstream_error_refuted :
+  ~ question_restored_on_upstream_error_statement.
+Proof.
+  intros H. specialize (H isort isort_perm _ _ _ _ _ _ _ NegativeExamples.upstream_error).
+  vm_compute in H. discriminate.
+Qed.
+
+(** The two refutations with their witnesses spelled out. *)
+Theorem self_exception_answer_case_witness :
+  exists raws host qt x,
+    In x raws /\ w_ans x = w_dom x /\ same_name (w_dom x) host /\
+    is_cname (normalize x) = true /\
+    (forall e, In e (map normalize raws) -> e_dom e = to_lower host -> is_cname e = true ->
+               same_name (e_ans e) host) /\
+    check_host isort true (map normalize raws) host qt <> Some empty_result.
+Proof.
+  exists CaseExamples.tS2, (bs "pass.host.test"), qA,
+         (CaseExamples.raw_of "Pass.Host.test" "Pass.Host.test" None).
+  split; [cbn; auto|]. split; [reflexivity|]. split; [vm_compute; reflexivity|].
+  split; [vm_compute; reflexivity|]. split.
+  - intros e He _ C. cbn in He. destruct He as [<-|[<-|[]]]; [vm_compute in C; discriminate|].
+    vm_compute; reflexivity.
+  - rewrite CaseExamples.self_exception_answer_case_2. discriminate.
+Qed.
+
+Theorem question_on_upstream_error_witness :
+  exists upstream tbl qname qt p,
+    respond_e isort upstream true tbl qname qt = Some (true, p) /\ rp_qname p <> qname.
+Proof.
+  do 5 eexists. split; [exact NegativeExamples.upstream_error|]. vm_compute. discriminate.
+Qed.
